@@ -104,21 +104,27 @@ def main():
     meta["needs_to_manifest"] = "see notes.md (section for variant %s)" % var
     with open(f"{d}/notes.md", "w") as f:
         f.write(notes)
-    # run my checks against it
+    # run my checks against it -- in an isolated pair (scratch worktree with the patch + a copy of /verif whose harness
+    # depends on that worktree), so that /repo itself is never touched and background runs are not disturbed
     results = {}
-    for c in checks:
-        code, o = sh(f"git -C /repo apply {patch}")
+    if checks:
+        MV = "/tmp/mut/verif"
+        os.makedirs("/tmp/mut", exist_ok=True)
+        sh(f"rsync -a --delete --exclude work --exclude harness/target --exclude replays --exclude .git {VERIF}/ {MV}/")
+        sh(f"sed -i 's#path = \"/repo\"#path = \"{SV}\"#' {MV}/harness/Cargo.toml")
+        code, o = sh(f"git apply {patch}", cwd=SV)
         if code != 0:
-            print("cannot apply to /repo", o)
+            print("cannot apply to scratch worktree", o)
             sys.exit(1)
         try:
-            t0 = time.time()
-            code, o = sh(f"VERIF_NO_EVIDENCE=1 python3 run/check.py {c} --tier quick", cwd=VERIF, timeout=3000)
-            lines = [l for l in o.splitlines() if l.startswith(("VIOLATION", "KNOWN-FINDING", "TOOL-ERROR", "DRIFT")) or l.startswith("  key=")]
-            results[c] = {"exit": code, "wall_s": round(time.time() - t0), "lines": lines[:8]}
-            print(f"  check {c}: exit={code}  " + " | ".join(lines[:3])[:300])
+            for c in checks:
+                t0 = time.time()
+                code, o = sh(f"VERIF_NO_EVIDENCE=1 VERIF_REPO={SV} python3 run/check.py {c} --tier quick", cwd=MV, timeout=3000)
+                lines = [l for l in o.splitlines() if l.startswith(("VIOLATION", "TOOL-ERROR", "DRIFT")) or l.startswith("  key=")]
+                results[c] = {"exit": code, "wall_s": round(time.time() - t0), "lines": lines[:8]}
+                print(f"  check {c}: exit={code}  " + " | ".join(lines[:3])[:300])
         finally:
-            sh("git -C /repo checkout -- .")
+            sh("git checkout -q -- . && git clean -fdq -e target -e OUT", cwd=SV)
     meta["checks_quick"] = results
     meta["detected_by"] = [c for c, r in results.items() if r["exit"] == 1]
     with open(f"{d}/meta.json", "w") as f:
